@@ -345,7 +345,29 @@ def r13_3(ctx):
     its = [(n, b, t) for n, b, t in v.calls if (fn_of(t) or {}).get("name") == "is_terminal"]
     ok_it = [x for x in its if "Stdout" in (fn_of(x[2]).get("self_ty", "") + fn_of(x[2]).get("resolved_full", ""))]
     dom = [x for x in ok_it if sup.dominates(x[0], nn)]
-    ctx.ob("is_terminal-on-stdout-dominates", bool(dom), v.site(nn), "IsTerminal::is_terminal(stdout) precedes translator construction on every path" if dom else f"no is_terminal test on stdout dominates translator construction (found: {[fn_of(t).get('self_ty') for _, _, t in its]})")
+    if not dom and ok_it:
+        # `unsafe(format) && stdout.is_terminal()`: the terminal is only asked about when the format needs it. What has
+        # to hold is symmetric in the two tests: the translator is not reached with both answers true, i.e. every
+        # path to it takes the false edge of the terminal test or the false edge of the format predicate
+        false_edges = []
+        for tn, tb, tt in ok_it:
+            for n_, t_, how in switches_on_carriers(sup, carriers(sup, tn, tt["dest"]["l"])):
+                z_ = [x for vv, x in t_["targets"] if vv == 0]
+                if how == "value" and z_:
+                    false_edges.append((n_, 0, (n_[0], z_[0])))
+        n_t = len(false_edges)
+        for n_, b_, t_ in v.calls:
+            f_ = fn_of(t_) or {}
+            callee_ = binc.by_id.get(f_.get("resolved") or f_.get("def")) if f_.get("local") and len(t_["args"]) == 1 else None
+            if callee_ and callee_.local_ty(0) == "bool" and "Format" in callee_.local_ty(1):
+                for n2_, t2_, how in switches_on_carriers(sup, carriers(sup, n_, t_["dest"]["l"])):
+                    z_ = [x for vv, x in t2_["targets"] if vv == 0]
+                    if how == "value" and z_:
+                        false_edges.append((n2_, 0, (n2_[0], z_[0])))
+        sym = n_t >= 1 and len(false_edges) > n_t and nn not in ps.reach(removed_edges=false_edges)
+        if sym:
+            dom = [ok_it[0]]
+    ctx.ob("is_terminal-on-stdout-dominates", bool(dom), v.site(nn), "the translator is constructed only after the terminal test or the format predicate answered no" if dom else f"no is_terminal test on stdout dominates translator construction (found: {[fn_of(t).get('self_ty') for _, _, t in its]})")
     if not dom:
         return
     inn, ib, itt = dom[0]
@@ -370,6 +392,13 @@ def r13_3(ctx):
             if how != "value" or n2[0] != n[0]:
                 continue
             r, terms, okx = _only_exit(v, ("edge", (n2, "otherwise", (n2[0], t2["otherwise"]))), 1)
+            if not okx:
+                # the predicate is asked first and the terminal second: the refusal hangs off the terminal test's
+                # true edge, which is only reached when the predicate said yes
+                for n3, t3, how3 in switches_on_carriers(sup, carr):
+                    if how3 == "value" and ps.edge_dominates(n2, "otherwise", (n2[0], t2["otherwise"]), n3):
+                        _, _, ok3 = _only_exit(v, ("edge", (n3, "otherwise", (n3[0], t3["otherwise"]))), 1)
+                        okx = okx or ok3
             ctx.ob("unsafe-format-on-terminal-exits-1", okx, v.site(n2), "refusal exits 1" if okx else "unsafe format on a terminal does not end in exit(1)")
         # evaluate the predicate abstractly on Format::Msgpack
         fadt = binc.adts.get("xt::Format") or ctx.lib.adts.get("Format")
@@ -1119,6 +1148,12 @@ def r14_3(ctx):
             g = _referent(b, tr.origin[2]["args"][0])
             idiom = "mem::replace"
         through_param = None
+        if g is None and idiom == "mem::replace":
+            # `mem::replace(flag, true)` with `flag: &mut bool` lent by the caller
+            at_ = trace(b, tr.origin[2]["args"][0])
+            if at_.origin and at_.origin[0] == "arg" and b.local_ty(at_.origin[1]) == "&mut bool" and all(s_[0] in ("use", "ref", "deref") for s_ in at_.steps):
+                through_param = at_.origin[1]
+                g, idiom = through_param, "mem::replace through &mut"
         if g is None and tr.origin and tr.origin[0] == "arg" and b.local_ty(tr.origin[1]) == "&mut bool" and any(s_[0] == "deref" for s_ in tr.steps) and all(s_[0] in ("use", "deref") for s_ in tr.steps):
             # the flag lives in the caller and is lent to this function as `&mut bool`
             through_param = tr.origin[1]
@@ -1153,7 +1188,7 @@ def r14_3(ctx):
                         for s in blk["stmts"]:
                             if s["k"] == "assign" and not s["p"]["pr"] and s["p"]["l"] == owner and s["rv"]["k"] == "use" and s["rv"]["op"].get("k") == "const":
                                 (setters if s["rv"]["op"].get("v") is True else clears).append((cpath, bi))
-        if idiom == "mem::replace":
+        if idiom.startswith("mem::replace"):
             armed = True
         else:
             armed = sn not in ps.reach_from_edge(false_edge[0], false_edge[1], false_edge[2], removed_nodes=setters)
